@@ -27,8 +27,8 @@ package didtransformer
 //@   loop 1 invariant resolutionResult != nil && resolutionResult.Document != nil
 //@   loop 2 invariant resolutionResult != nil && resolutionResult.Document != nil
 // the per-purpose lists are built by this call: appending to them never writes memory that existed before
-//@   loop 0 invariant [purposes.fresh] purposes != nil && (forall k string :: has(purposes, k) ==> purposes[k] == nil || fresh(purposes[k]))
-//@   loop 1 invariant [purposes.fresh] purposes != nil && (forall k string :: has(purposes, k) ==> purposes[k] == nil || fresh(purposes[k]))
+//@   loop 0 invariant [purposes.fresh] purposes != nil && (forall k string :: has(purposes, k) ==> purposes[k] == nil || built(purposes[k]))
+//@   loop 1 invariant [purposes.fresh] purposes != nil && (forall k string :: has(purposes, k) ==> purposes[k] == nil || built(purposes[k]))
 
 //@ func (t *Transformer) processServices(internal, resolutionResult)
 //@   requires t != nil && resolutionResult != nil && resolutionResult.Document != nil
